@@ -221,7 +221,7 @@ class AFMReader(TextToModel):
 
         if isinstance(expression, AFMParser.NotExpContext):
             result = Node(ASTOperation.NOT)
-            result.right = self.build_ast_node(expression.expression(), prefix)
+            result.left = self.build_ast_node(expression.expression(), prefix)
 
         if isinstance(expression, AFMParser.ParenthesisExpContext):
             result = self.build_ast_node(expression.expression(), prefix)
